@@ -57,7 +57,7 @@ func fmp4Offset(clock int) int64 { return 10 * int64(clock) }
 func (o *muxObs) analyse(r *Run) *muxAnalysis {
 	a := &muxAnalysis{o: o, cfg: o.w.cfg, lead: o.w.cfg.leadingTrack(), byPay: map[string]*unit{},
 		segDec: map[int][]decUnit{}, partDec: map[int][]decUnit{}, partsOf: map[int][]*mediaObj{},
-		streamOfTrack: map[int]*streamObs{}}
+		streamOfTrack: map[int]*streamObs{}, openStart: -1}
 	a.fail = func(oracle, key, format string, args ...any) {
 		if !a.failed {
 			a.failed = true
